@@ -408,7 +408,7 @@ long VfRun::do_seek_call(Handle &H, const std::string &kind, const Rec &op, bool
 
 void VfRun::oracle_seek(Handle &H, const Rec &op, const std::string &kind, long ret, int64_t t0, int64_t t1, bool lap) {
   const char *site = kind.c_str();
-  if (!H.seekable) { check(ret == OV_ENOSEEK, {"C10", "C03"}, site, "streaming-seek-not-refused", fmt("ret=%ld", ret)); return; }
+  if (!H.seekable) { check(ret == OV_ENOSEEK || (H.part && ret == OV_EINVAL), {"C10", "C03"}, site, "streaming-seek-not-refused", fmt("ret=%ld", ret)); return; }
   if (inexact() || H.io_dirty) { check(ret == 0 || documented_code(ret), {"C03", "C12"}, site, "undocumented-return", fmt("ret=%ld", ret)); return; }
   int64_t tp = -1; double tex = 0; bool inr = in_range(kind, op, tp, tex);
   std::map<std::string, std::string> facts = {{"hr", std::to_string(H.hr)}, {"lap", lap ? "1" : "0"}};
